@@ -20,6 +20,7 @@ RULE = (
     "decremented at return/raise, maintained by the instrumented functions) never exceeds k; no logical deadlock "
     "(quiescent, nothing parked, call unfinished); result equals the unlimited run's result. Non-trivial: >= k+1 bodies "
     "could run concurrently (unlimited peak > k); distinct = (program shape, k, policy, form)."
+    ' Asynchronous auto-answering interrupt handlers are bodies too; two burst schedules per limit release a second body 1-7 loop passes after the first without waiting for quiescence.'
 )
 ASSUMPTIONS = [
     "the bound is on function-node bodies and asynchronous interrupt-handler bodies; gate functions and synchronous handlers are instantaneous decisions that cannot overlap anything",
